@@ -260,6 +260,21 @@ def bounds_sweep(env):
 def run(env):
     harness.tag_errors(False)
     bounds_sweep(env)
+    from vf import gen_types
+    for i, (label, build) in enumerate(gen_types.directed_shapes()):
+        if i % env.nshards != env.shard:
+            continue
+        prog = Program(build(gen_types.Gen(env.rng, max_depth=2)))
+        try:
+            prog.load()
+        except Exception:
+            env.count("program_load_failed")
+            continue
+        try:
+            check_program(env, prog, "directed:" + label, ndata=24)
+            env.count("directed_shape_programs")
+        finally:
+            prog.unload()
     rng = env.rng
     n = env.n(420, 12000)
     for j in range(n):
